@@ -200,7 +200,7 @@ pub fn check(c: &Case) -> Verdict {
     }
     let classes = vec![format!("shape={}", match &c.shape { Shape::Disjoint => "disjoint", Shape::Overlap(_) => "overlap", Shape::Interleave(_) => "interleave", Shape::Random(_) => "random" }), format!("files={}", match nfiles_used { 0..=3 => "1-3", 4..=49 => "4-49", 50..=149 => "50-149", _ => "150+" }), format!("w={}", wd.min(5)), format!("cb={}", c.cb.cli()), format!("ranged={}", c.start.is_some() || c.end.is_some()), format!("reopen={}", opens > nfiles_used)];
     let sample = serde_json::json!({"blocks": nb, "files": nfiles_used, "shape": format!("{:?}", c.shape).chars().take(60).collect::<String>(), "range": format!("{}..={}", s, e), "N0": n0, "w": wd, "limit": limit, "max_open_blk_in_trace": max_open, "opens_in_trace": opens, "callback": c.cb.cli()});
-    Verdict::Pass(Pass { nontrivial: nfiles_used as u64 >= n0 + 20 && wd <= 3, key: key_of(c), classes, known: vec![], sub_evals: runs, sample: Some(sample) })
+    Verdict::Pass(Pass { nontrivial: nfiles_used as u64 >= n0 + 20 && wd <= 3, key: key_of(c), classes, known: vec![], sub_evals: runs, sample: Some(sample), extra_keys: vec![] })
 }
 
 fn run(eng: &Engine, a: &Args) {
